@@ -1,5 +1,5 @@
 CONSTANTS
-  Accts = {"its0", "alice", "bob", "carol", "mallory"}
+  Accts = {"its0", "alice", "bob", "carol", "mallory", "token"}
   Cap = 0
   MaxLive = 6311999
 INIT Init
